@@ -50,7 +50,14 @@ RULE = ('product family: all sheet descriptions that differ from the default des
         'middle / last ordinary column, both members of a list, both keys of a dictionary) x column order '
         '(filled cells of every kind to its right / to its left), one row per text, plus every text column at '
         'once, plus one-row sheets (text x first ordinary / ordinary / dictionary column, comment row present and '
-        'absent)')
+        'absent); values family: every number of a list of 28 numbers (negative, 0 / 0.0 / -0.0, denormal / tiny of '
+        'both signs, just below / at / just above a cutoff of 50, huge of both signs; Python ints and floats) in every '
+        'numeric column (both elements, each of three vib_wavenumber columns, both rot_temperature columns, both list '
+        'members, both dictionary keys, three NASA coefficients, two ordinary columns) x column order x how the '
+        'vib_outcar-only options min_frequency_cutoff / include_imaginary are given (omitted, documented defaults by '
+        'keyword, by position, cutoff 50 without imaginary, cutoff 0 with imaginary, int 0 / None), one row per number, '
+        'plus integer-only columns, plus every numeric column at once, plus one-row sheets (number x one column of each '
+        'kind x options)')
 ASSUMPTIONS = [
     'cells are numbers, or strings that pandas does not itself read as missing (NA, N/A, NaN, None, null, '
     'empty string ... are "empty" by the reader\'s documented na_values convention and are not used)',
@@ -71,6 +78,9 @@ ASSUMPTIONS = [
     'text family: a text cell is stored as a text cell (a string that begins with = is written with the '
     'string data type, not as a formula); texts that look like numbers or dates are not used (the type '
     'inference of the spreadsheet library is not pMuTT\'s business)',
+    'values family: numeric cells are finite doubles or integers of magnitude <= 1e15; min_frequency_cutoff and '
+    'include_imaginary "apply for the vib_outcar header" (read_excel docstring), so no value of them changes what '
+    'a vib_wavenumber cell (or any other cell) gives; a negative / zero / tiny / huge number is a non-empty cell',
 ]
 EXPLANATION = ('stateless exploration of the real reader: every case is a workbook written to disk and '
                'read by pmutt.io.excel.read_excel')
@@ -177,8 +187,40 @@ TEXT_SINGLE_COLUMNS = [0, 2, 6]
 TEXT_ORDERS = ['identity', 'reversed']
 N_TEXT_SHARDS = 2
 
+# ---- values family: numeric cells whose sign / magnitude a filter, a truthiness test or a cutoff could act on
+VAL_CUTOFF = 50.
+SPECIAL_VALUES = [
+    ('negative', -1483.6), ('negative', -215.5), ('negative', -1), ('negative', -1.0), ('negative', -0.5),
+    ('negative-tiny', -5e-324), ('negative-tiny', -1e-300), ('negative-tiny', -1e-12),
+    ('negative-huge', -1e12), ('negative-huge', -1.5e300), ('negative-huge', -10 ** 15),
+    ('zero', 0), ('zero', 0.0), ('zero', -0.0),
+    ('tiny', 5e-324), ('tiny', 1e-300), ('tiny', 1e-12),
+    ('below-cutoff', 0.5), ('below-cutoff', 1), ('below-cutoff', 49.999),
+    ('at-cutoff', 50), ('at-cutoff', 50.0), ('above-cutoff', 50.001), ('above-cutoff', 51),
+    ('huge', 1e12), ('huge', 1.5e300), ('huge', 10 ** 15), ('huge', 1e308),
+]
+VAL_HEADERS = ['name', 'element.H', 'element.O', 'vib_wavenumber', 'vib_wavenumber', 'vib_wavenumber',
+               'rot_temperature', 'rot_temperature', 'list.a', 'list.a.1', 'dict.d.k1', 'dict.d.k2', 'nasa.a_low.0',
+               'nasa.a_low.6', 'nasa.a_high.3', 'potentialenergy', 'statmech_model', 'T_low']
+VAL_KINDS = {1: 'element', 2: 'element', 3: 'vib_wavenumber', 4: 'vib_wavenumber', 5: 'vib_wavenumber',
+             6: 'rot_temperature', 7: 'rot_temperature', 8: 'list', 9: 'list', 10: 'dict', 11: 'dict',
+             12: 'nasa.a_low', 13: 'nasa.a_low', 14: 'nasa.a_high', 15: 'ordinary', 17: 'ordinary'}
+VAL_COLUMNS = sorted(VAL_KINDS)
+VAL_SINGLE_COLUMNS = [1, 3, 5, 6, 9, 11, 13, 14, 15]
+VAL_ORDERS = ['identity', 'reversed']
+# how read_excel's vib_outcar-only options are given
+VAL_KW = ['omitted', 'explicit-defaults', 'positional-defaults', 'cutoff50+imag-false', 'cutoff0+imag-true',
+          'cutoff-int0+imag-false', 'cutoff-none+imag-true']
+VAL_KW_SINGLE = ['omitted', 'explicit-defaults', 'cutoff50+imag-false']
+N_VALUE_SHARDS = 8
+
 PLANNED_TAGS = (
-    ['text:' + c for c in sorted({c for c, _ in SPECIAL_TEXTS})]
+    ['val:' + c for c in sorted({c for c, _ in SPECIAL_VALUES})]
+    + ['val-col:' + k for k in sorted(set(VAL_KINDS.values()))]
+    + ['val-kw:' + k for k in VAL_KW]
+    + ['val:int-cell', 'val:float-cell', 'val:integer-only-column', 'val:one-row-sheet', 'val:every-numeric-column',
+       'val:all-vib-cells-not-positive', 'val:alone-in-its-group', 'val:order-identity', 'val:order-reversed', 'val:comment-absent']
+    + ['text:' + c for c in sorted({c for c, _ in SPECIAL_TEXTS})]
     + ['text-col:' + k for k in sorted({k for _, k in TEXT_COLUMNS})]
     + ['text:filled-cells-to-the-right', 'text:one-row-sheet', 'text:every-text-column',
        'text:first-data-row', 'text:last-data-row', 'text:order-identity', 'text:order-reversed'] +
@@ -225,6 +267,13 @@ def bounds(tier):
                                  sheets='per text column x order: one row per text (+ every text column at once); '
                                         'per text x column of %s: a one-row sheet'
                                         % [TEXT_HEADERS[j] for j in TEXT_SINGLE_COLUMNS]),
+                values_family=dict(values=[repr(v) for _, v in SPECIAL_VALUES], headers=VAL_HEADERS,
+                                   numeric_columns=[VAL_HEADERS[j] for j in VAL_COLUMNS], orders=VAL_ORDERS,
+                                   options=VAL_KW,
+                                   sheets='per numeric column x order x options: one row per value; per numeric column '
+                                          'x options: the integer values only; per order x options: every numeric '
+                                          'column at once; per value x column of %s x options of %s: a one-row sheet'
+                                          % ([VAL_HEADERS[j] for j in VAL_SINGLE_COLUMNS], VAL_KW_SINGLE)),
                 option_passing=['omitted', 'explicit-defaults', 'sheet-index+pathlib'],
                 differential='every row of every multi-row sheet is also read alone (60-row sheets '
                              'with 3 deviations: rows 0-5 and 54-59)')
@@ -271,6 +320,8 @@ def shards(tier):
         out.append(dict(fam='long', tier=tier, part=p, of=N_LONG_SHARDS[tier]))
     for p in range(N_TEXT_SHARDS):
         out.append(dict(fam='text', part=p, of=N_TEXT_SHARDS))
+    for p in range(N_VALUE_SHARDS):
+        out.append(dict(fam='values', part=p, of=N_VALUE_SHARDS))
     if tier == 'thorough':
         for q in BLOCK4_THOROUGH:
             for m in range(256):
@@ -687,6 +738,90 @@ def _text_configs():
             yield 'single', col, 'identity', t
 
 
+# ------------------------------------------------------------ values family
+def _val_default(j, r):
+    """Ordinary (positive, mid-sized) content of column j of VAL_HEADERS in row r."""
+    if j == 0:
+        return 'sp%d' % r
+    if VAL_HEADERS[j] == 'statmech_model':
+        return PRESET_NAMES[r % len(PRESET_NAMES)]
+    if j % 2:
+        return 2 + j + r                       # Python int
+    return 100.5 + 37 * j + r
+
+
+def _val_class_tags(cls, v):
+    return ['val:' + cls, 'val:int-cell' if isinstance(v, int) else 'val:float-cell']
+
+
+def build_values_case(kind, col, order, kw, start=0):
+    """kind 'packed': one row per special value, the value in column `col`; 'ints': the same with the integer
+    values only (the column holds nothing but integers); 'all': one row per special value, every numeric column
+    holds a special value (rotating); in every fourth row of 'packed' / 'ints' the other columns of the same kind
+    are empty, so that the special value alone decides whether the record has the key; 'single': a one-row sheet with value number `start` in column `col`.  All
+    other cells hold ordinary positive numbers / text (a fixed sparse mask of them is empty)."""
+    values = SPECIAL_VALUES if kind != 'ints' else [sv for sv in SPECIAL_VALUES if isinstance(sv[1], int)]
+    n = len(values)
+    rows, row_sig, vtags = [], [], set()
+    for r in (range(n) if kind != 'single' else [0]):
+        row, classes = [], []
+        for j in range(len(VAL_HEADERS)):
+            special = None
+            if kind == 'all' and j in VAL_KINDS:
+                special = values[(r + 3 * VAL_COLUMNS.index(j)) % n]
+            elif kind != 'all' and j == col:
+                special = values[(start + r) % n]
+            alone = (kind in ('packed', 'ints') and r % 4 == 3 and j != col and VAL_KINDS.get(j) == VAL_KINDS[col])
+            if alone:
+                row.append(None)            # the special value is the only filled cell of its group in this row
+                vtags.add('val:alone-in-its-group')
+            elif special is not None:
+                row.append(special[1])
+                classes.append(special[0])
+                vtags.update(_val_class_tags(*special))
+                vtags.add('val-col:' + VAL_KINDS[j])
+            elif j != 0 and kind not in ('single', 'ints') and (r + 2 * j) % 5 == 0:
+                row.append(None)
+            else:
+                row.append(_val_default(j, r))
+        vib = [row[j] for j in VAL_KINDS if VAL_KINDS[j] == 'vib_wavenumber' and row[j] is not None]
+        if vib and all(v <= 0 for v in vib):
+            vtags.add('val:all-vib-cells-not-positive')
+        rows.append(row)
+        row_sig.append({'val': classes[0] if len(set(classes)) == 1 else 'several'})
+    cols = list(range(len(VAL_HEADERS)))
+    if order == 'reversed':
+        cols.reverse()
+        rows = [[row[j] for j in cols] for row in rows]
+    elif order != 'identity':
+        raise ValueError(order)
+    comment = (kind != 'single' or start % 2 == 0)
+    vtags.add('val:order-' + order)
+    vtags.add('val-kw:' + kw)
+    vtags.update({'packed': [], 'ints': ['val:integer-only-column'], 'all': ['val:every-numeric-column'],
+                  'single': ['val:one-row-sheet']}[kind])
+    if not comment:
+        vtags.add('val:comment-absent')
+    return dict(family='values', kind=kind, col=(VAL_HEADERS[col] if kind != 'all' else 'all'), order=order,
+                colkind=(VAL_KINDS[col] if kind != 'all' else 'every-numeric-column'), kw=kw,
+                headers=[VAL_HEADERS[j] for j in cols], rows=rows, comment=comment, sheet=None, decoy=None,
+                diff_rows=[0, len(rows) - 1], row_sig=row_sig, vtags=sorted(vtags))
+
+
+def _values_configs():
+    for kw in VAL_KW:
+        for order in VAL_ORDERS:
+            for col in VAL_COLUMNS:
+                yield 'packed', col, order, kw, 0
+            yield 'all', 0, order, kw, 0
+        for col in VAL_COLUMNS:
+            yield 'ints', col, 'identity', kw, 0
+    for t in range(len(SPECIAL_VALUES)):
+        for col in VAL_SINGLE_COLUMNS:
+            for kw in VAL_KW_SINGLE:
+                yield 'single', col, 'identity', kw, t
+
+
 # ------------------------------------------------------------ running one case
 _TMP = {}
 
@@ -748,6 +883,13 @@ def write_workbook(case, rows=None):
     return path
 
 
+# options of the values family that are not the documented defaults (they "apply for the vib_outcar header")
+VAL_OPTIONS = {'cutoff50+imag-false': dict(min_frequency_cutoff=VAL_CUTOFF, include_imaginary=False),
+               'cutoff0+imag-true': dict(min_frequency_cutoff=0., include_imaginary=True),
+               'cutoff-int0+imag-false': dict(min_frequency_cutoff=0, include_imaginary=False),
+               'cutoff-none+imag-true': dict(min_frequency_cutoff=None, include_imaginary=True)}
+
+
 def _reader(fresh):
     """The real read_excel.  fresh=True re-executes the module pmutt.io.excel first, so that
     every sheet is read in the module state of a new process: a case then never depends on the
@@ -781,8 +923,14 @@ def read_real(case, sig, rows=None, fresh=True):
         import pathlib
         io = pathlib.Path(path)
         kwargs['sheet_name'] = 1 if case.get('decoy') == 'before' else 0
+    args = ()
+    if how == 'positional-defaults':
+        # skiprows, header, delimiter, min_frequency_cutoff, include_imaginary by position
+        args = (kwargs.pop('skiprows', [1]), 0, '.', 0., False)
+    elif how in VAL_OPTIONS:
+        kwargs.update(VAL_OPTIONS[how])
     try:
-        return read_excel(io, **kwargs)
+        return read_excel(io, *args, **kwargs)
     except Exception as e:
         sig.update(_blame(e))
         raise
@@ -817,6 +965,9 @@ def _sig0(case):
         s['group'] = '+'.join(g.split(':')[0] for g in case['groups'])
     if case['family'] == 'text':
         s['textcol'] = case['colkind']
+    if case['family'] == 'values':
+        s['valcol'] = case['colkind']
+        s['kw'] = case['kw']
     return s
 
 
@@ -928,6 +1079,8 @@ def case_tags(case):
         tags.add('kw:' + case.get('kw', 'omitted'))
     if case['family'] == 'text':
         tags.update(case['ttags'])
+    if case['family'] == 'values':
+        tags.update(case['vtags'])
     if case['family'] == 'long':
         for g in case['groups']:
             tags.add('long:' + g)
@@ -1099,6 +1252,8 @@ def run_shard(shard, ctx):
             _run_long(shard, ctx)
         elif shard['fam'] == 'text':
             _run_text(shard, ctx)
+        elif shard['fam'] == 'values':
+            _run_values(shard, ctx)
         else:
             _run_block(shard, ctx)
     finally:
@@ -1144,6 +1299,19 @@ def _run_text(shard, ctx):
         check_case(case, ctx)
         ctx.nontrivial(key)             # a special character in a text cell: never in the default sheet
         if kind == 'all':
+            ctx.sample(case, limit=1)
+
+
+def _run_values(shard, ctx):
+    for k, (kind, col, order, kw, start) in enumerate(_values_configs()):
+        if k % shard['of'] != shard['part']:
+            continue
+        case = build_values_case(kind, col, order, kw, start)
+        key = ('v', kind, col, order, kw, start)
+        ctx.state(key)
+        check_case(case, ctx)
+        ctx.nontrivial(key)             # a negative / zero / tiny / huge number: never in the default sheet
+        if kind == 'all' and kw == 'omitted':
             ctx.sample(case, limit=1)
 
 
@@ -1202,7 +1370,9 @@ LEVEL_TEXT = ('Deviation-bounded product enumeration of worksheet descriptions (
               'each column quadruple, plus BFS over histories of 2 (thorough 3) reader calls in one module state, '
               'plus, for each of 16 indexed / repeatable header kinds, every member count 11-30 in three column '
               'orders (thorough: every pair of kinds in one sheet), plus text cells holding each character / word that '
-              'is special to table readers in every free-text column with filled cells on both sides; '
+              'is special to table readers in every free-text column with filled cells on both sides, plus numeric '
+              'cells of every sign / zero / denormal / huge magnitude in every numeric column under every way of giving '
+              'the vib_outcar-only options; '
               'every sheet is written with openpyxl and read by the real read_excel; '
               'records compared key by key with a documentation-derived reference and, row by row, with the '
               'one-row sheet holding only that row.')
